@@ -319,6 +319,8 @@ func (e *Engine) iteVal(c string, a, b Val) Val {
 		if !ok {
 			if p, ok2 := b.(PtrVal); ok2 {
 				y = e.ptrScalar(p)
+			} else if f, ok2 := b.(FuncVal); ok2 {
+				y = e.scalar(f) // a closure value merged with a function value loaded from memory
 			} else {
 				fail("ite of scalar with %T", b)
 			}
@@ -370,6 +372,9 @@ func (e *Engine) iteVal(c string, a, b Val) Val {
 		}
 		fail("ite of pointer with %T", b)
 	case FuncVal:
+		if _, isSc := b.(Sc); isSc {
+			return e.iteVal(c, e.scalar(x), b)
+		}
 		y, ok := b.(FuncVal)
 		if ok && y.Fn == x.Fn && len(x.Bind) == len(y.Bind) {
 			r := FuncVal{Fn: x.Fn}
